@@ -8,15 +8,18 @@ import common as c
 
 PID = "C17"
 MANIFEST = {
-    "text": "Coq theorems over the unit table regenerated from the built crate on every run: exhaustive (vm_compute, "
-            "bound = the table) identifier resolution / alias / ambiguity / category / prefix-ratio theorems, and "
-            "unbounded exact-rational laws (self-identity, there-and-back, composition) about the same conversion code "
-            "that is run in binary64 against units::convert and the convert built-in; self-conversion identity proved "
-            "for every arithmetic instance (bit-exact in binary64) since fix e6d26e9",
+    "text": "23 Coq theorems over the unit table regenerated from the built crate on every run: exhaustive (vm_compute, "
+            "bound = the table) identifier resolution / no duplicates / alias / ambiguity / category / prefix-ratio / "
+            "well-formedness theorems; unbounded theorems on resolve_unit for every string and table; self-conversion "
+            "identity in every arithmetic (bit-exact in binary64); exact-rational there-and-back and composition laws about "
+            "the same conversion code that is run in binary64 against units::convert and the convert built-in; a Flocq "
+            "relative-error bound (4 roundings of 2^-53) for binary64 there-and-back between linear units",
     "note": "trusted: Coq kernel + vm_compute; harness dump-units (reflective dump of get_all_units()); the hand "
-            "transcription of resolve_unit/convert (validated by the UNITS/RESOLVE/LOWER correspondence streams); "
-            "Rust to_lowercase modelled only on ASCII + the dumped non-ASCII characters; axioms: see evidence",
-    "design_ref": "DESIGN.md section 6 C17 / notes/C17.md",
+            "transcription of resolve_unit/convert (validated by the UNITS/RESOLVE/LOWER/BUILTIN correspondence streams); "
+            "Rust to_lowercase modelled only on ASCII + the dumped non-ASCII characters; binary64 bounds for reciprocal / "
+            "temperature kinds and for composition are tested (impl-level search), not proved; axioms: none except the "
+            "allow-listed real-number axioms under the Flocq theorem",
+    "design_ref": "notes/C17.md (DESIGN.md section 6 C17)",
 }
 
 GEN_FILE = os.path.join(c.GEN, "UnitsTable.v")
